@@ -21,7 +21,7 @@ ASSUMPTIONS = [
     'num_procs in {2,4,8}: the worker pool is MODELLED in the symbolic run (core.SerialPool: order-preserving map, every task on a copy of its argument, result copied back, i.e. what pickling does); OS scheduling and worker-private module state are not symbolically executable and only exercised by the float replay of a counterexample, which uses real processes',
 ]
 OUTSIDE = ['scheduling / worker-private state of real worker processes (pool model only)', 'render() with num_procs (needs a visualisation backend)', 'degrees > 3', 'cache sizes that are not decimal integers']
-BOUNDS = {'quick': 'span function / evaluator / normalize_kv pairs on curves p<=3, surfaces degrees<=2, one volume; CrossHair on the lru_cache maxsize expressions; subprocess runs of a C04 instance under GEOMDL_CACHE_SIZE in {unset,1,16,1024}; num_procs in {2,4} x voxel padding and container tessellation (worker-pool model)',
+BOUNDS = {'quick': 'span function / evaluator / normalize_kv pairs on curves p<=3, surfaces degrees<=2, one volume; CrossHair on the lru_cache maxsize expressions; subprocess runs of a C04 instance under GEOMDL_CACHE_SIZE in {unset,1,16,1024}; num_procs in {2,4} x voxel padding and container tessellation (worker-pool model); knot vectors times a symbolic factor for the evaluator pair; forced second container tessellation',
           'thorough': 'more patterns, surfaces (3,2), derivative orders to 3'}
 
 
